@@ -42,7 +42,10 @@ impl SymbolTable {
 pub struct LoopContext { pub start: usize, pub break_instructions: Vec<usize> }
 
 /// ghost log of the recursive code-generation calls made so far (which sub-tree, in which order)
-pub enum LogEntry { E(Expr), B(Seq<Stmt>), S(Stmt) }
+pub enum LogWhat { E(Expr), B(Seq<Stmt>), Stops(Seq<usize>) }
+pub ghost struct LogEntry { pub what: LogWhat, pub start: int, pub end: int }
+pub open spec fn entry_e(e: Expr, pre: Compiler, post: Compiler) -> LogEntry { LogEntry { what: LogWhat::E(e), start: pre.instructions@.len() as int, end: post.instructions@.len() as int } }
+pub open spec fn entry_b(b: Seq<Stmt>, pre: Compiler, post: Compiler) -> LogEntry { LogEntry { what: LogWhat::B(b), start: pre.instructions@.len() as int, end: post.instructions@.len() as int } }
 
 pub struct Compiler {
     /// GHOST (not in the real struct, never constructed by extracted code): see LogEntry
@@ -55,12 +58,54 @@ pub struct Compiler {
     pub gc: GC,
 }
 
+/// state invariant of code generation (requires AND ensures of every generator): the peephole invariant
+pub open spec fn gen_inv(c: Compiler) -> bool { peephole_inv(c) }
+
+/// the pending-`stop` list of loop context i, as positions
+pub open spec fn breaks(c: Compiler, i: int) -> Seq<usize> { c.loop_contexts@[i].break_instructions@ }
+/// two compilers have the same loop nesting: same depth, same starts, same pending-stop positions
+pub open spec fn same_loops(a: Compiler, b: Compiler) -> bool {
+    a.loop_contexts@.len() == b.loop_contexts@.len()
+        && forall|i: int| 0 <= i < a.loop_contexts@.len() ==> #[trigger] a.loop_contexts@[i].start == b.loop_contexts@[i].start && breaks(a, i) == breaks(b, i)
+}
+/// a recorded `stop` is the position of a Jump opcode with both operand bytes inside the buffer - and it is not
+/// the trailing Pop that the peephole may remove
+pub open spec fn break_ok(c: Compiler, p: int) -> bool {
+    0 <= p && p + 3 <= c.instructions@.len() && c.instructions@[p] == opcode_byte(OpCode::Jump)
+        && (c.last_instruction == Some(OpCode::Pop) ==> p + 3 <= c.instructions@.len() - 1)
+}
+/// what a generator may do (induction hypothesis for the recursive calls): bytes emitted earlier are never
+/// touched; success emits at least one byte; the invariant is kept; loop nesting is restored and only the
+/// INNERMOST loop's pending-stop list may grow - by jumps that lie inside the newly emitted code, in increasing
+/// order, at least one instruction apart; constants only grow.
+pub open spec fn gen_post(pre: Compiler, post: Compiler, ok: bool) -> bool {
+    let n = pre.loop_contexts@.len() as int;
+    &&& is_prefix(pre.instructions@, post.instructions@)
+    &&& (ok ==> post.instructions@.len() > pre.instructions@.len())
+    &&& gen_inv(post)
+    &&& post.loop_contexts@.len() == n
+    &&& (forall|i: int| 0 <= i < n ==> #[trigger] post.loop_contexts@[i].start == pre.loop_contexts@[i].start)
+    &&& (forall|i: int| 0 <= i < n - 1 ==> #[trigger] breaks(post, i) == breaks(pre, i))
+    &&& (n > 0 ==> {
+            let (b0, b1) = (breaks(pre, n - 1), breaks(post, n - 1));
+            &&& b0.len() <= b1.len() && b1.subrange(0, b0.len() as int) =~= b0
+            &&& (forall|j: int| b0.len() <= j < b1.len() ==> pre.instructions@.len() <= #[trigger] b1[j] && break_ok(post, b1[j] as int))
+            &&& (forall|j: int, k: int| b0.len() <= j < k < b1.len() ==> #[trigger] b1[j] + 3 <= #[trigger] b1[k])
+        })
+    &&& pre.constants@.len() <= post.constants@.len()
+    &&& (forall|i: int| 0 <= i < pre.constants@.len() ==> post.constants@[i] == pre.constants@[i])
+}
+
+/// value of the placeholder operand (src/compiler.rs JUMP_PLACEHOLDER); every placeholder is overwritten, so the
+/// number itself is irrelevant to the contracts
+pub const JUMP_PLACEHOLDER: u16 = 1337;
+
 pub open spec fn le16(v: int) -> Seq<u8> { seq![(v % 256) as u8, (v / 256) as u8] }
 /// frame condition of the emit helpers: only the code buffer (and last_instruction for emit_opcode) changes
 pub open spec fn same_but_code(a: Compiler, b: Compiler) -> bool {
     a.symbols == b.symbols && a.constants == b.constants && a.loop_contexts == b.loop_contexts && a.log@ == b.log@
 }
-pub open spec fn is_prefix(a: Seq<u8>, b: Seq<u8>) -> bool { a.len() <= b.len() && b.subrange(0, a.len() as int) =~= a }
+pub open spec fn is_prefix(a: Seq<u8>, b: Seq<u8>) -> bool { a.len() <= b.len() && forall|k: int| 0 <= k < a.len() ==> #[trigger] b[k] == a[k] }
 /// global invariant of the code buffer that the last-instruction peephole relies on: if the last opcode
 /// emitted is remembered as Pop, the last byte of the buffer IS that Pop
 pub open spec fn peephole_inv(c: Compiler) -> bool {
@@ -71,28 +116,50 @@ impl Compiler {
     // PROVED-BY: O02.emit c02_emit (Kani, real Compiler::emit_opcode / emit_u8 / emit_u16)
     #[verifier::external_body]
     fn emit_opcode(&mut self, op: OpCode)
-        ensures final(self).instructions@ == old(self).instructions@.push(opcode_byte(op)), final(self).last_instruction == Some(op), same_but_code(*old(self), *final(self))
+        ensures final(self).instructions@ == old(self).instructions@.push(opcode_byte(op)), final(self).last_instruction == Some(op), same_but_code(*old(self), *final(self)),
+                // DERIVED (lemma_emit_opcode_inv, unit c11_control): follows from the three facts above
+                gen_inv(*old(self)) ==> gen_inv(*final(self)),
     { unimplemented!() }
     #[verifier::external_body]
     fn emit_u8(&mut self, v: u8)
-        ensures final(self).instructions@ == old(self).instructions@.push(v), final(self).last_instruction == old(self).last_instruction, same_but_code(*old(self), *final(self))
+        ensures final(self).instructions@ == old(self).instructions@.push(v), final(self).last_instruction == old(self).last_instruction, same_but_code(*old(self), *final(self)),
+                // DERIVED (lemma_emit_operand_inv, unit c11_control)
+                (gen_inv(*old(self)) && old(self).last_instruction != Some(OpCode::Pop)) ==> gen_inv(*final(self)),
     { unimplemented!() }
     #[verifier::external_body]
     fn emit_u16(&mut self, v: u16)
-        ensures final(self).instructions@ == old(self).instructions@ + le16(v as int), final(self).last_instruction == old(self).last_instruction, same_but_code(*old(self), *final(self))
+        ensures final(self).instructions@ == old(self).instructions@ + le16(v as int), final(self).last_instruction == old(self).last_instruction, same_but_code(*old(self), *final(self)),
+                // DERIVED (lemma_emit_operand_inv, unit c11_control)
+                (gen_inv(*old(self)) && old(self).last_instruction != Some(OpCode::Pop)) ==> gen_inv(*final(self)),
     { unimplemented!() }
     // PROVED-BY: O10.1 c10_add_constant (Kani, bounded pool): the returned slot holds the value; earlier slots unchanged
     #[verifier::external_body]
-    fn add_constant(&mut self, obj: Object) -> (idx: u16)
+    fn add_constant(&mut self, obj: Object) -> (r: Result<u16, Error>)
         ensures
-            (idx as int) < final(self).constants@.len(),
-            spec_tag(final(self).constants@[idx as int]) == spec_tag(obj),
-            spec_tag(obj) == Type::Int ==> spec_int(final(self).constants@[idx as int]) == spec_int(obj),
-            spec_tag(obj) == Type::Function ==> final(self).constants@[idx as int] == obj,
+            r is Ok ==> ({
+                let idx = r->Ok_0 as int;
+                &&& idx < final(self).constants@.len()
+                &&& spec_tag(final(self).constants@[idx]) == spec_tag(obj)
+                &&& (spec_tag(obj) == Type::Int ==> spec_int(final(self).constants@[idx]) == spec_int(obj))
+                &&& (spec_tag(obj) == Type::Function ==> final(self).constants@[idx] == obj)
+            }),
             old(self).constants@.len() <= final(self).constants@.len(),
             forall|i: int| 0 <= i < old(self).constants@.len() ==> final(self).constants@[i] == old(self).constants@[i],
             final(self).instructions == old(self).instructions, final(self).last_instruction == old(self).last_instruction,
             final(self).symbols == old(self).symbols, final(self).loop_contexts == old(self).loop_contexts, final(self).log@ == old(self).log@,
+            // DERIVED (code buffer, last_instruction and loop contexts are unchanged)
+            gen_inv(*old(self)) ==> gen_inv(*final(self)),
+    { unimplemented!() }
+
+    /// O11.patch (Kani, real Compiler::change_jump_operand_at): requires a jump opcode at idx with both operand
+    /// bytes inside the code (otherwise the function's assert! / indexing panics); ensures exactly those two
+    /// bytes change.
+    #[verifier::external_body]
+    fn change_jump_operand_at(&mut self, idx: usize, v: u16)
+        requires idx + 2 < old(self).instructions@.len(),
+                 old(self).instructions@[idx as int] == opcode_byte(OpCode::Jump) || old(self).instructions@[idx as int] == opcode_byte(OpCode::JumpIfFalse)
+        ensures final(self).instructions@ == old(self).instructions@.update(idx + 1, (v as int % 256) as u8).update(idx + 2, (v as int / 256) as u8),
+                final(self).last_instruction == old(self).last_instruction, same_but_code(*old(self), *final(self))
     { unimplemented!() }
 
     /// The recursive code generators as their callers see them (induction hypothesis of the structural
@@ -101,29 +168,17 @@ impl Compiler {
     /// and the call is recorded in the ghost log.
     #[verifier::external_body]
     fn compile_expression(&mut self, expr: &Expr) -> (r: Result<(), Error>)
-        requires peephole_inv(*old(self))
+        requires gen_inv(*old(self))
         ensures
-            final(self).log@ == old(self).log@.push(LogEntry::E(*expr)),
-            is_prefix(old(self).instructions@, final(self).instructions@),
-            r is Ok ==> final(self).instructions@.len() > old(self).instructions@.len(),
-            peephole_inv(*final(self)),
-            final(self).loop_contexts@.len() == old(self).loop_contexts@.len(),
-            forall|i: int| 0 <= i < old(self).loop_contexts@.len() ==> final(self).loop_contexts@[i].start == old(self).loop_contexts@[i].start,
-            old(self).constants@.len() <= final(self).constants@.len(),
-            forall|i: int| 0 <= i < old(self).constants@.len() ==> final(self).constants@[i] == old(self).constants@[i],
+            final(self).log@ == old(self).log@.push(entry_e(*expr, *old(self), *final(self))),
+            gen_post(*old(self), *final(self), r is Ok),
     { unimplemented!() }
     #[verifier::external_body]
     fn compile_block_statement(&mut self, stmts: &[Stmt]) -> (r: Result<(), Error>)
-        requires peephole_inv(*old(self))
+        requires gen_inv(*old(self))
         ensures
-            final(self).log@ == old(self).log@.push(LogEntry::B(stmts@)),
-            is_prefix(old(self).instructions@, final(self).instructions@),
-            r is Ok ==> final(self).instructions@.len() > old(self).instructions@.len(),
-            peephole_inv(*final(self)),
-            final(self).loop_contexts@.len() == old(self).loop_contexts@.len(),
-            forall|i: int| 0 <= i < old(self).loop_contexts@.len() ==> final(self).loop_contexts@[i].start == old(self).loop_contexts@[i].start,
-            old(self).constants@.len() <= final(self).constants@.len(),
-            forall|i: int| 0 <= i < old(self).constants@.len() ==> final(self).constants@[i] == old(self).constants@[i],
+            final(self).log@ == old(self).log@.push(entry_b(stmts@, *old(self), *final(self))),
+            gen_post(*old(self), *final(self), r is Ok),
     { unimplemented!() }
 }
 
